@@ -183,7 +183,12 @@ func (cs *chkSelector) updatePoss(ch chunk.Chunk, chkSt *chkStatus, ri tmindex.R
 		var err error
 		if cs.tmRange.MinTs >= ri.MinTs {
 			// case 5
-			chkSt.minPos, err = cs.tmidx.GetPosForGreaterOrEqualTime(cs.jrnl.Name(), ri.Id, cs.tmRange.MinTs)
+			minTs := cs.tmRange.MinTs
+			if minTs > math.MinInt64 {
+				// the index returns the last point with ts <= the bound; records equal to the bound can start before it
+				minTs--
+			}
+			chkSt.minPos, err = cs.tmidx.GetPosForGreaterOrEqualTime(cs.jrnl.Name(), ri.Id, minTs)
 			if err != nil {
 				chkSt.minPos = 0
 				cs.tiRebuilder.RebuildIndex(cs.jrnl.Name(), ch.Id(), false)
